@@ -360,7 +360,9 @@ def call_bound(P, name, recv, args, kwargs):
         c.name = None
         _register_fresh(P, c)
         return c
-    if name == 'symset.add' and len(args) == 1:
+    if name == 'symset.append' and type(recv).__name__ != 'SymBag':   # zipseqs: only the list abstraction has append
+        raise Unsupported('append on a symbolic set')
+    if name in ('symset.add', 'symset.append') and len(args) == 1:
         _mutate(P, recv)
         t = _kterm(recv, args[0])
         om = recv.member
